@@ -19,6 +19,11 @@ Tie:    the `minimize` seam (`optyx.solvers.scipy_solver.minimize`) is spied: th
         start only.  The start handed to SciPy must be finite and inside the declared box (and is compared with
         `Py.initialPoint` of the bounds with every infinite side open), the bounds handed over must be the declared
         ones, and the differential below must hold.
+        Fifth family (`param_position_family`): a Parameter as exponent / base / coefficient / divisor / addend inside a
+        power, with a structurally special VALUE (0, 1, 2, −1) when the derivatives are first built (first solve, first
+        gradient() / compile_gradient of the expression object) or reached later; p.set(other) between stages, re-solve of
+        the same Problem or a brand-new Problem around the SAME expression object; every stage judged at the current value
+        (reference optimum by bisection; fun / jac / hess handed to SciPy vs hand-written ones and central differences).
 Oracle: the property's differential — generated strictly convex problems (QP and smooth
         non-quadratic; equalities / inequalities / bounds, active or not) with a manufactured
         optimum x*, solved through optyx and by raw SciPy with the hand-written callables from the
@@ -642,6 +647,297 @@ def check_magnitude_objective(rng, rep, methods):
         del sgn
     rep.nontrivial.add(hash(("magobj", n, k, scale, form, is_max)))
 
+# ------------------------------------------------------------------ fifth family: Parameters in structurally special positions
+# A Parameter p as EXPONENT (x ** p), BASE (p ** x), COEFFICIENT (p * x**2), DIVISOR (x**2 / p) or ADDEND inside a power
+# ((x + p) ** 2) of a separable strictly convex objective  Σ (x_i − a_i)² + w·t(x_i, p)  on a positive box (optionally
+# under one linear constraint Σx ≤ s, or one constraint Σ t(x_i, p) ≤ s that contains the Parameter itself), whose VALUE
+# is structurally special (0, 1, 2, −1) at the time the derivatives are first built — the first solve, or the first
+# gradient() of that expression object — or becomes special later; between the stages p.set(other), then a re-solve of
+# the SAME Problem or a brand-new Problem around the SAME expression object.  Every stage is judged at the CURRENT
+# parameter value: (a) the property — raw SciPy with the hand-written f / ∇f / ∇²f converges to the optimum computed
+# independently by (nested) bisection on the monotone derivative ⇒ optyx OPTIMAL within tolerance; (b) the callables
+# handed to SciPy: fun / jac / hess and each constraint's fun / jac against the hand-written ones, and jac against
+# central differences of the very `fun` handed over (hess against central differences of `jac`).
+
+PARAM_POSITIONS = {
+    # name: (special values, ordinary values, t, dt/dx, d²t/dx², "t is convex in x on x > 0 for this value")
+    "exponent": ([0.0, 2.0, 1.0, -1.0], [3.0, 1.5, 4.0, 2.5],
+                 lambda x, p: x ** p, lambda x, p: p * x ** (p - 1.0), lambda x, p: p * (p - 1.0) * x ** (p - 2.0),
+                 lambda p: p >= 1.0 or p <= 0.0),
+    "base": ([1.0, 2.0], [3.0, 0.5, 1.5, 2.5],
+             lambda x, p: p ** x, lambda x, p: np.log(p) * p ** x, lambda x, p: np.log(p) ** 2 * p ** x,
+             lambda p: True),
+    "coefficient": ([0.0, 2.0, 1.0, -1.0], [3.0, 0.5, -2.0, 1.5],
+                    lambda x, p: p * x ** 2, lambda x, p: 2.0 * p * x, lambda x, p: 2.0 * p + 0.0 * x,
+                    lambda p: p >= 0.0),
+    "divisor": ([1.0, 2.0, -1.0], [4.0, 0.5, -2.0, 3.0],
+                lambda x, p: x ** 2 / p, lambda x, p: 2.0 * x / p, lambda x, p: 2.0 / p + 0.0 * x,
+                lambda p: p > 0.0),
+    "addend": ([0.0, 2.0, 1.0, -1.0], [3.0, 0.5, -2.0, 1.5],
+               lambda x, p: (x + p) ** 2, lambda x, p: 2.0 * (x + p), lambda x, p: 2.0 + 0.0 * x,
+               lambda p: True),
+}
+PARAM_W = 0.25     # Σ (x−a)² + ¼·t : second derivative ≥ 2 − ¼·2·|p| > 0 for every value above ⇒ strictly convex
+
+
+def param_term(position, x, p):
+    """the optyx spelling of t(x, p): x a Variable, p the Parameter OBJECT"""
+    return {"exponent": lambda: x ** p, "base": lambda: p ** x, "coefficient": lambda: p * x ** 2,
+            "divisor": lambda: x ** 2 / p, "addend": lambda: (x + p) ** 2}[position]()
+
+
+def gen_param_history(rng, position=None, first=None):
+    """`position` / `first` (the special value the sweep starts at) may be fixed by the caller (stratification)"""
+    position = position or rng.choice(list(PARAM_POSITIONS))
+    special, ordinary = PARAM_POSITIONS[position][:2]
+    n = rng.randint(1, 3)
+    shape = "special-first" if first is not None else rng.choice(["special-first", "special-first", "special-later", "special-twice"])
+    if shape == "special-first":       # a sweep that STARTS at the special value
+        vals = [rng.choice(special) if first is None else first] + rng.sample(ordinary, rng.choice([1, 2]))
+    elif shape == "special-later":     # a sweep that REACHES it
+        vals = rng.sample(ordinary, rng.choice([1, 2])) + [rng.choice(special)] + [rng.choice(ordinary)]
+    else:
+        s2 = rng.sample(special, 2)
+        vals = [s2[0], rng.choice(ordinary), s2[1]]
+    con = rng.choice(["none", "none", "linear", "param"])
+    convex = PARAM_POSITIONS[position][5]
+    if con == "param" and not all(convex(v) for v in vals):
+        con = "linear"
+    return {"position": position, "n": n, "values": vals, "shape": shape,
+            "a": [rng.randint(6, 20) / 4 for _ in range(n)], "lb": 0.25, "ub": float(rng.choice([6.0, 8.0])),
+            "constraint": con, "tight": rng.choice([0.6, 0.8]),
+            "is_max": rng.random() < 0.4,
+            "first_touch": rng.choice(["solve", "solve", "gradient", "compile_gradient"]),
+            "reuse": [rng.choice(["re-solve", "fresh-problem"]) for _ in vals]}
+
+
+def _bisect(fun, lo, hi, iters=60):
+    """root of an increasing function on [lo, hi], clipped to the interval"""
+    if fun(lo) >= 0:
+        return lo
+    if fun(hi) <= 0:
+        return hi
+    for _ in range(iters):
+        mid = 0.5 * (lo + hi)
+        if fun(mid) < 0:
+            lo = mid
+        else:
+            hi = mid
+    return 0.5 * (lo + hi)
+
+
+def param_reference(d, pv, s):
+    """the optimum at parameter value pv, by bisection on monotone derivatives only (no solver, no optyx)"""
+    _, _, t, dt, _, _ = PARAM_POSITIONS[d["position"]]
+    a, lb, ub, con = np.array(d["a"]), d["lb"], d["ub"], d["constraint"]
+    c = (lambda x: x) if con == "linear" else (lambda x: t(x, pv))
+    dc = (lambda x: 1.0) if con == "linear" else (lambda x: dt(x, pv))
+
+    def x_of(lam):
+        return np.array([_bisect(lambda x, ai=ai: 2.0 * (x - ai) + PARAM_W * dt(x, pv) + (lam * dc(x) if lam else 0.0), lb, ub)
+                         for ai in a])
+
+    x = x_of(0.0)
+    if con == "none" or float(np.sum(c(x))) <= s:
+        return x
+    hi = 1.0
+    while float(np.sum(c(x_of(hi)))) > s and hi < 1e6:
+        hi *= 2.0
+    lam = _bisect(lambda l: s - float(np.sum(c(x_of(l)))), 0.0, hi)
+    return x_of(lam)
+
+
+def param_rhs(d):
+    """the constant right-hand side of the constraint: a fraction of the constraint value at the unconstrained optimum of
+    the FIRST stage, raised (if needed) so that every stage keeps a strictly feasible point"""
+    if d["constraint"] == "none":
+        return None
+    _, _, t, _, _, _ = PARAM_POSITIONS[d["position"]]
+    d0 = dict(d, constraint="none")
+    c = (lambda x, pv: float(np.sum(x))) if d["constraint"] == "linear" else (lambda x, pv: float(np.sum(t(x, pv))))
+    s = d["tight"] * c(param_reference(d0, d["values"][0], None), d["values"][0])
+    inner = np.full(d["n"], d["lb"] + 0.25)
+    for pv in d["values"]:
+        lo = min(c(inner, pv), c(np.full(d["n"], d["ub"] - 0.25), pv), c(np.full(d["n"], 1.0), pv))
+        s = max(s, lo + 0.5)
+    return float(s)
+
+
+def run_param_history(d, rep, methods):
+    """deterministic in `d`: build ONE expression object, then the stages"""
+    from optyx import Parameter, Problem, Variable
+    from scipy.optimize import minimize as sp_minimize
+
+    position, n, lb, ub, con, is_max = d["position"], d["n"], d["lb"], d["ub"], d["constraint"], d["is_max"]
+    _, _, t, dt, d2t, _ = PARAM_POSITIONS[position]
+    a = np.array(d["a"])
+    s_rhs = param_rhs(d)
+    xs = [Variable(f"u{i}", lb=lb, ub=ub) for i in range(n)]
+    par = Parameter("pp", d["values"][0])
+    expr = None
+    for i in range(n):
+        term = (xs[i] - float(a[i])) ** 2 + PARAM_W * param_term(position, xs[i], par)
+        expr = term if expr is None else expr + term
+    obj_expr = -expr if is_max else expr      # ONE object for every Problem of the history
+    con_expr = None
+    if con == "linear":
+        con_expr = sum(xs[1:], xs[0]) <= s_rhs
+    elif con == "param":
+        ce = None
+        for i in range(n):
+            ce = param_term(position, xs[i], par) if ce is None else ce + param_term(position, xs[i], par)
+        con_expr = ce <= s_rhs
+
+    def new_problem():
+        P = Problem().maximize(obj_expr) if is_max else Problem().minimize(obj_expr)
+        if con_expr is not None:
+            P.subject_to(con_expr)
+        return P
+
+    def fail(what, stage, pv, method, **kw):
+        rep.oracle_failures.append({"what": what, "param_position": d, "stage": stage, "parameter_value_now": pv,
+                                    "parameter_values_so_far": d["values"][:stage + 1], "method": method, **kw})
+
+    n0 = len(rep.oracle_failures)
+    with warnings.catch_warnings():
+        warnings.simplefilter("ignore")
+        try:
+            if d["first_touch"] == "gradient":
+                from optyx.core.autodiff import gradient
+                for v in xs:
+                    gradient(obj_expr, v)
+                    if con_expr is not None:
+                        gradient(con_expr.expr, v)
+            elif d["first_touch"] == "compile_gradient":
+                from optyx.core.compiler import compile_gradient
+                compile_gradient(obj_expr, xs)
+        except Exception as ex:  # noqa: BLE001
+            fail(f"the first gradient of the objective raised {type(ex).__name__}: {ex}"[:300], 0, d["values"][0], None)
+            return
+    P = new_problem()
+    bounds = [(lb, ub)] * n
+    x0 = initial_point(bounds)
+    mids = [np.full(n, lb) + (ub - lb) * fr * (1.0 + 0.07 * np.arange(n)) for fr in (0.11, 0.37, 0.61)]
+    for stage, pv in enumerate(d["values"]):
+        par.set(pv)
+        if stage > 0 and d["reuse"][stage] == "fresh-problem":
+            P = new_problem()
+        f = lambda x, pv=pv: float(np.sum((x - a) ** 2 + PARAM_W * t(x, pv)))
+        g = lambda x, pv=pv: 2.0 * (x - a) + PARAM_W * dt(x, pv)
+        h = lambda x, pv=pv: np.diag(2.0 + PARAM_W * d2t(x, pv))
+        cons_raw = []
+        if con == "linear":
+            cons_raw = [{"type": "ineq", "fun": lambda x: float(s_rhs - np.sum(x)), "jac": lambda x: -np.ones(n)}]
+        elif con == "param":
+            cons_raw = [{"type": "ineq", "fun": lambda x, pv=pv: float(s_rhs - np.sum(t(x, pv))),
+                         "jac": lambda x, pv=pv: -dt(x, pv) * np.ones(n)}]
+        xref = param_reference(d, pv, s_rhs)
+        fref = f(xref)
+        for method in methods:
+            if method == "L-BFGS-B" and cons_raw:
+                continue
+            with MinimizeSpy() as spy:
+                with warnings.catch_warnings():
+                    warnings.simplefilter("ignore")
+                    try:
+                        sol = P.solve(method=method)
+                    except Exception as ex:  # noqa: BLE001
+                        fail(f"solve(method={method}) raised {type(ex).__name__}: {ex}"[:300], stage, pv, method)
+                        continue
+            rep.evaluations += 1
+            if not spy.calls:
+                continue
+            kw = spy.calls[0]
+            used = kw["method"]
+            key = f"param:{position}:{'special' if pv in PARAM_POSITIONS[position][0] else 'ordinary'}@{min(stage, 1)}"
+            rep.histogram[key] = rep.histogram.get(key, 0) + 1
+            # ---- (b) the callables handed to SciPy, at the CURRENT parameter value
+            bad = None
+            for pt in mids:
+                eps = 1e-5
+                fv = float(kw["fun"](pt))
+                if not np.isfinite(fv) or abs(fv - f(pt)) > 1e-9 * (1.0 + float(np.sum(np.abs((pt - a) ** 2) + np.abs(PARAM_W * t(pt, pv))))):
+                    bad = ("fun", fv, f(pt)); break
+                if kw.get("jac") is not None:
+                    gv = np.asarray(kw["jac"](pt), dtype=float)
+                    fd = np.array([(kw["fun"](pt + eps * e) - kw["fun"](pt - eps * e)) / (2 * eps) for e in np.eye(n)])
+                    scale = 1.0 + np.abs(2.0 * (pt - a)) + np.abs(PARAM_W * dt(pt, pv))
+                    if not np.all(np.abs(gv - fd) <= 1e-5 * scale):
+                        bad = ("jac (vs central differences of the `fun` handed to SciPy)", gv.tolist(), fd.tolist()); break
+                    if not np.all(np.abs(gv - g(pt)) <= 1e-9 * scale):
+                        bad = ("jac", gv.tolist(), g(pt).tolist()); break
+                    if kw.get("hess") is not None:
+                        hv = np.asarray(kw["hess"](pt), dtype=float)
+                        hfd = np.array([(np.asarray(kw["jac"](pt + eps * e)) - np.asarray(kw["jac"](pt - eps * e))) / (2 * eps)
+                                        for e in np.eye(n)])
+                        hs = 1.0 + np.abs(h(pt)).max()
+                        if hv.shape != (n, n) or not np.all(np.abs(hv - hfd) <= 1e-5 * hs * (1.0 + np.abs(g(pt)).max())):
+                            bad = ("hess (vs central differences of the `jac` handed to SciPy)", hv.tolist(), hfd.tolist()); break
+                        if not np.all(np.abs(hv - h(pt)) <= 1e-9 * hs):
+                            bad = ("hess", hv.tolist(), h(pt).tolist()); break
+                for cd, cr in zip(kw.get("constraints") or [], cons_raw):
+                    cv, cw = float(cd["fun"](pt)), cr["fun"](pt)
+                    if abs(cv - cw) > 1e-9 * (1.0 + abs(cw) + abs(s_rhs)):
+                        bad = ("constraint fun", cv, cw); break
+                    jv, jw = np.asarray(cd["jac"](pt), dtype=float).reshape(-1), cr["jac"](pt)
+                    if jv.shape != jw.shape or not np.all(np.abs(jv - jw) <= 1e-9 * (1.0 + np.abs(jw))):
+                        bad = ("constraint jac", jv.tolist(), jw.tolist()); break
+                if bad:
+                    break
+            if bad:
+                fail(f"the `{bad[0]}` handed to SciPy is not the derivative / value of the user's model at the CURRENT "
+                     "parameter value (Parameter in a special position, special value when the derivatives were first built)",
+                     stage, pv, method, point=np.asarray(pt).tolist(), got=bad[1], want=bad[2])
+            # ---- (a) the property
+            kwr = dict(fun=f, x0=x0, method=used, jac=g, bounds=bounds, constraints=cons_raw if cons_raw else ())
+            if used == "trust-constr":
+                kwr["hess"] = h
+            with warnings.catch_warnings():
+                warnings.simplefilter("ignore")
+                try:
+                    raw = sp_minimize(**kwr)
+                except Exception:  # noqa: BLE001
+                    continue
+            tol = 1e-4 * (1.0 + abs(fref))
+            feas = lambda x, tl: all(cr["fun"](x) >= -tl * (1.0 + abs(s_rhs)) for cr in cons_raw) and \
+                bool(np.all(x >= lb - tl) and np.all(x <= ub + tl))
+            raw_gap = f(raw.x) - fref
+            raw_ok = bool(raw.success) and feas(raw.x, 5e-7) and raw_gap <= tol
+            hk = "param_raw_converged" if raw_ok else "param_raw_not_converged"
+            rep.histogram[hk] = rep.histogram.get(hk, 0) + 1
+            if raw_ok:
+                xo = np.array([sol.values.get(v.name, np.nan) for v in xs]) if sol.values else np.full(n, np.nan)
+                finite = bool(np.all(np.isfinite(xo)))
+                gap = f(xo) - fref if finite else np.inf
+                obj_ok = finite and sol.objective_value is not None and \
+                    abs((-sol.objective_value if is_max else sol.objective_value) - f(xo)) <= 1e-7 * (1.0 + abs(f(xo)))
+                if not (sol.status.name == "OPTIMAL" and finite and feas(xo, 1e-5) and gap <= max(tol, 10 * abs(raw_gap)) and obj_ok):
+                    fail("raw SciPy (hand-written f, exact gradient, same bounds / constraint / start, CURRENT parameter value) "
+                         "converged to the optimum found by bisection but optyx did not report it",
+                         stage, pv, method, optyx_status=sol.status.name, optyx_gap=repr(float(gap)), raw_gap=float(raw_gap),
+                         x_optyx=xo.tolist(), x_reference=xref.tolist(), optyx_objective=repr(sol.objective_value),
+                         message=str(sol.message)[:120])
+        if len(rep.oracle_failures) > n0:
+            break       # later stages of a broken history add nothing
+    rep.nontrivial.add(hash(("param", position, n, tuple(d["values"]), con, is_max, d["first_touch"], tuple(d["reuse"]))))
+
+
+def param_position_family(rng, rep, n_cases, methods, stop_at_first=False):
+    """stratified: the positions in turn; in every other round the sweep STARTS at a special value, the special values
+    of each position in turn (from a random offset); the remaining rounds draw shape and values freely"""
+    names = list(PARAM_POSITIONS)
+    off = rng.randrange(4)
+    for i in range(n_cases):
+        position, k = names[i % len(names)], i // len(names)
+        first = None
+        if k % 2 == 0:
+            special = PARAM_POSITIONS[position][0]
+            first = special[(k // 2 + off) % len(special)]
+        run_param_history(gen_param_history(rng, position, first), rep, methods)
+        if stop_at_first and rep.oracle_failures:
+            return
+
+
 # ------------------------------------------------------------------ fourth family: how an OPEN side of the bounds is written
 # `p["bounds"]` keeps the MEANING (None = open side); `p["spell"]` says how every side is written in the model:
 # "finite", "none", or one of the explicit infinities below (negated for a lower side).  A model that writes an open
@@ -1065,6 +1361,8 @@ def run(ctx) -> core.Report:
         check_magnitude_objective(mrng, rep, METHODS)
     orng = core.Rng(ctx["seed"] * 15485867 + 11)   # own stream
     open_side_family(orng, rep, lines, metas, 60 if thorough else 12, METHODS)
+    prng = core.Rng(ctx["seed"] * 32452843 + 17)   # own stream
+    param_position_family(prng, rep, 120 if thorough else 20, METHODS)
     gs = ctx["seed"] * 7919 + 13
     check_glue(core.Rng(gs), rep, 700 if thorough else 120, glue_seed=gs)
     # dispatch table of Problem.solve: exhaustive over method names × linearity, against the model
@@ -1140,6 +1438,9 @@ def search(ctx, rep):
     check_glue(core.Rng(gs), r2, 400, glue_seed=gs)
     if r2.oracle_failures:
         return r2.oracle_failures[0]
+    param_position_family(core.Rng(ctx["seed"] * 32452843 + 18), r2, 150, METHODS, stop_at_first=True)
+    if r2.oracle_failures:
+        return r2.oracle_failures[0]
     open_side_family(core.Rng(ctx["seed"] * 15485867 + 12), r2, [], [], 150, METHODS, stop_at_first=True)
     if r2.oracle_failures:
         return r2.oracle_failures[0]
@@ -1164,6 +1465,14 @@ def replay(payload) -> bool:
         bad = [g for g in rep.oracle_failures if "glue" in g]
         if bad:
             print(bad[0])
+            return False
+        return True
+    if "param_position" in f:
+        # the whole history again (deterministic in its description): one expression object, the stages, every method
+        rep = core.Report()
+        run_param_history(f["param_position"], rep, METHODS)
+        if rep.oracle_failures:
+            print(rep.oracle_failures[0])
             return False
         return True
     if "magnitude_objective" in f:
